@@ -108,6 +108,24 @@ CLAIMED = {
 
 NOT_APPLICABLE = {}
 
+# later additions to the notes (kept apart so that the table above stays readable)
+TIE = " Source tie by translation: tools/gen_source_rules.py regenerates the decision rules from the Rust text on every run; "
+ADD = {
+    "C01": TIE + "C01.source_rules_agree (every validate(), container limits, field names) and source_layouts_agree (field widths/orders) are proved equal to the model for every argument.",
+    "C02": TIE + "C02.source_rules_agree, source_classification_agrees (get_dovi_profile, is_mel): a rewritten classification rule breaks an obligation even when no generated header reaches the changed case.",
+    "C03": TIE + "C03.source_rules_agree: the writer's validate() rules, allowed levels and per-level count limits as they stand in the source are the model's.",
+    "C04": TIE + "C04.source_modes_agree: From<u8> for ConversionMode and the profiles each arm of convert_with_mode accepts are the model's table and accept/reject decisions.",
+    "C06": " The finalize guard (last buffer written only when its frame number differs from the frame count) is modelled; the conservation theorems carry the hypothesis that every NAL's frame label is below the frame count, mux_drops_trailing_nals states what happens otherwise (a generated family checks it against the CLI).",
+    "C07": " The finalize guard of inject-rpu is modelled (nFrames); inject_spec / inject_keeps_other_nals / inject_one_rpu_per_frame carry the hypothesis that every NAL's frame label is below the frame count, inject_drops_trailing_nals states what happens otherwise.",
+    "C09": TIE + "C09.source_l6_levels_agree (source_meta_from_l6). Allocation is not modelled: an astronomically large duplicate length fails in Vec::splice (named in DESIGN P2.9).",
+    "C10": TIE + "C10.source_l1_clamp_agrees (clamp_values_int with its limits), source_l6_levels_agree. Fixed finding 40027ee (allocation before the length check) is guarded by the huge-inconsistent-length family.",
+    "C12": TIE + "C12.source_sort_key_agrees: every level's sort_key() as it stands in the source is the model's Block.sortKey.",
+    "C15": TIE + "C15.source_t35_header_agrees (ITU_T35_DOVI_RPU_PAYLOAD_HEADER).",
+    "C17": " Piped input is part of 'same inputs': convert/demux/remove/extract-rpu --start-code annex-b on a stream whose first access unit exceeds the read chunk are fed through stdin with a different write size and pacing per process.",
+    "C19": TIE + "C19.source_st2084_constants_agree: the ST 2084 constants, evaluated as exact fractions from utils.rs, are the rationals of the certified tables.",
+    "C20": " The C-side structures are field-by-field mirrors of the repr(C) structs; tools/gen_source_cstructs.py regenerates struct field lists and From impls (C20.source_cstructs_agree*). Injectivity is stated for exactly the fields the C structs carry (ext_mapping_idc_* are proved NOT carried). Call sequences continue after failed operations (post-failure state modelled; capi.seqview), the list API and null-pointer calls are exercised.",
+}
+
 def main():
     props = [json.loads(l)["id"] for l in open(os.path.join(V, "properties.jsonl"))]
     hook_commits = []
@@ -131,7 +149,7 @@ def main():
                 "replay_cmd_template": "./check %s --replay {path}" % p,
                 "engine": "lean4-model+correspondence",
                 "level_claimed": {"category": "proof", "text": c["text"], "design_ref": c["design"]},
-                "level_note": c["note"],
+                "level_note": c["note"] + ADD.get(p, ""),
                 "technique": c["technique"],
             })
     na = [{"property_id": p, "reason": NOT_APPLICABLE.get(p, "not yet claimed: model and correspondence for this property are still being built (see DESIGN.md section 9)")}
